@@ -205,7 +205,7 @@ if __name__ == "__main__":
         "a Go channel is a FIFO holding at most cap + (number of waiting receivers) items; the Close drainer is a permanently waiting receiver",
         "types of one Subscribe call are distinct; event values are distinguishable (unique ids); one Close call per subscription (closeOnce not modelled)",
         "no deadlock is proved as a state-predicate progress theorem (c15_no_deadlock: every reachable state with an unfinished operation has an enabled non-stimulus step, given that every full open channel has a receive pending or is being closed), not as liveness under fairness (DESIGN.md section 10)",
-        "monitor-accepts-model (c15_monitor_accepts_model_partial): for every well-formed configuration and every DISCIPLINED schedule (stimuli only at quiescent states: what the harness does and what conform_case searches, c15_accepted_run_is_disciplined) the monitor run on the WIRE line of the run (decode/encode round trip proved: c15_wire_round_trip, c15_monitor_case_on_runs) accepts or names one of rules 6, 8, 10; proved clause by clause with the monitor's own functions: rules 1-5, 7, 9 (c15_monitor_rule1..5, 7, 9), 11 (no panic label in a model trace), 12 (from rule 13, under final_ok: quiescent end state, every returned Subscribe closing, no Subscribe still in flight - the last conjunct excludes exactly the known crossing-Subscribe deadlock), 13 (c15_monitor_rule13_accepts_model). NOT coupled: the stateful-replay rules 6 and 8 and rule 10 (its second half is the replay clause); they have model-side theorems only (c15_stateful_replay_first, c15_nothing_before_join, c15_exactly_once_in_order). Emitter.Close/closed-emitter error path; node drop semantics of `stateful` (DESIGN.md section 9 item 12: the monitor demands the retained event only while a stateful emitter of the type stayed open)",
+        "monitor-accepts-model is a theorem (c15_monitor_accepts_model): for every well-formed configuration and every DISCIPLINED schedule (stimuli only at quiescent states: what the harness does and what conform_case searches, c15_accepted_run_is_disciplined) the monitor run on the WIRE line of the run (decode/encode round trip proved: c15_wire_round_trip, c15_monitor_case_on_runs) answers []; proved clause by clause with the monitor's own functions: rules 1-10 (c15_monitor_rule1..10; rules 4, 9, 10 use the discipline), 11 (no panic label in a model trace), 12 (from rule 13, under final_ok: quiescent end state, every returned Subscribe closing, no Subscribe still in flight - the last conjunct excludes exactly the known crossing-Subscribe deadlock), 13 (c15_monitor_rule13_accepts_model). Hypotheses of the theorem that are not proved of the harness: that the real harness only writes a stimulus at a quiescent point (its settle loop reads goroutine states) and writes the end marker only in a final_ok situation. Emitter.Close/closed-emitter error path; node drop semantics of `stateful` (DESIGN.md section 9 item 12: the monitor demands the retained event only while a stateful emitter of the type stayed open)",
         "exactly-once is stated per occurrence of the sink in n.sinks; that a subscription is listed at most once per node follows from distinct types per Subscribe call (hypothesis of the theorem reading, not proved: c15_nothing_before_join / c15_stateful_replay_first take `~ In n (snodes c)`)",
         "harness quiescence detection reads goroutine states (runtime.Stack) inside the synctest bubble because synctest.Wait does not treat sync.Mutex waits as durable blocks; monitor rules 4, 9, 10 rely on that quiescence between stimuli",
     ]
